@@ -6,14 +6,16 @@ import json, os, subprocess, sys
 rnd = sys.argv[1]
 props = [json.loads(l) for l in open("/verif/properties.jsonl")]
 tmpl = open("/verif/tools/mut/prompt.txt").read()
-HINT = ("Those families are exhausted; find something of a DIFFERENT family and a different site. Unused so far and welcome: "
-        "arithmetic on lengths/indices/offsets in batch code paths when batches are empty, have one element, or contain duplicates of the SAME "
-        "entry; the boundary between name-addressed and key-addressed requests (name present AND key present, empty name, name without a slash, "
-        "names with several slashes or unicode); logging/tracing/metrics code that consumes or reorders values; error wrapping that changes "
-        "errors.Is / sentinel comparisons; goroutine lifetime (work continuing after the reply was sent); time handling (clock going backwards, "
-        "zero times, durations of 0 or negative from configuration); config defaults and zero values (timeouts, ids, empty peer lists, storage "
-        "path reuse between services); conversions at the protobuf boundary (nil vs empty slices, zero-length but non-nil keys, fields that are "
-        "optional); ordering assumptions on Go maps; sharing of slices between a request and stored state. "
+HINT = ("Those families are exhausted; find something of a DIFFERENT family and a different site. Unused so far and welcome: the INTERACTION of two "
+        "features that are each fine alone (batch endpoint + admin-IP gate, key-addressed request + distributed account, import + legacy-format "
+        "records, account created at run time + permissions by regex, wallet lock + signing); differences between wallet TYPES (nd / hd / "
+        "keystore / distributed) in fetcher, unlocker and signer; resource limits (very long names, batches of 10^4..10^5 entries, deeply nested "
+        "patterns) where a limit or a truncation silently changes a decision; retries / timeouts / context values inside the DKG sender and "
+        "process service; the order in which main.go constructs and wires services (which of them share a locker, a store, a fetcher) and the "
+        "parsing of permissions / peers / ids from configuration (Go map ordering, duplicate keys, case, whitespace, numeric ids parsed with the "
+        "wrong width); migration between record versions in the rules store; maps guarded by the wrong mutex (or an RLock where a Lock is "
+        "needed) in fetcher / unlocker / process; the metrics (prometheus) and tracing wrappers when they alter a returned value; default-"
+        "constructed protobuf messages and optional fields; off-by-one at the first or last element, at index 0, at the empty batch. "
         "It must be realistic, hard to spot, compile, pass the existing tests, and genuinely break THIS property.")
 for p in props:
     pid = p["id"]
